@@ -7,7 +7,9 @@
 //! write kind (CREATE, MERGE, SET, REMOVE, LABEL, DELETE) is executed in which exactly one
 //! row is poisoned so that it fails with one failure kind (integer division by zero, type
 //! error in an operand, duplicate value under a unique constraint, write to a node deleted
-//! earlier in the statement).  The failing row position is ENUMERATED 0..k-1 inside
+//! earlier in the statement, plain DELETE of a node that keeps a relationship the clause does
+//! not name).  The label :A carries one to three unique constraints (u, k, w — knob).
+//! The failing row position is ENUMERATED 0..k-1 inside
 //! `execute` (one sub-execution per position, pinned for replay).
 //!
 //! Oracle (only when the statement returns Err): the store equals a twin built by
@@ -42,6 +44,8 @@ struct Spec {
     form: u64,
     index: bool,
     constraint: bool,
+    /// further unique constraints on :A besides (A, u): bit 0 = (A, k), bit 1 = (A, w)
+    c2: u64,
     with_c: bool,
 }
 
@@ -54,6 +58,7 @@ impl Spec {
             k: (if ev.get("k").is_some() { u(ev, "k") } else { case.knob_u64("k", 3) } as usize).clamp(1, 5),
             with_c: fk == "deleted_node" || (wk == "DELETE" && form % 3 != 1) || (case.knob_bool("with_c", false) && !(wk == "DELETE" && form % 3 == 1)),
             constraint: case.knob_bool("constraint", false) || fk == "dup",
+            c2: case.knob_u64("constraint2", 0) % 4,
             index: case.knob_bool("index", false),
             wk,
             fk,
@@ -101,6 +106,14 @@ fn setup(spec: &Spec, extras: &[&Value], p: usize) -> Vec<String> {
     }
     if spec.constraint {
         q.push("CREATE CONSTRAINT ON (n:A) ASSERT n.u IS UNIQUE".into());
+        // a label with several unique constraints: every row value of k and w is distinct, so
+        // only the planted duplicate (on u) ever collides
+        if spec.c2 & 1 == 1 {
+            q.push("CREATE CONSTRAINT ON (n:A) ASSERT n.k IS UNIQUE".into());
+        }
+        if spec.c2 & 2 == 2 {
+            q.push("CREATE CONSTRAINT ON (n:A) ASSERT n.w IS UNIQUE".into());
+        }
     }
     q.push("CREATE (a:A:P {k: 50, u: 150, v: 1})-[:U]->(b:B:P {k: 51, v: 2})".into());
     for i in 0..spec.k {
@@ -118,6 +131,15 @@ fn setup(spec: &Spec, extras: &[&Value], p: usize) -> Vec<String> {
             } else {
                 q.push(format!("MATCH (n:R {{k: {}}}) CREATE (n)-[:T]->(c:B:C {{k: {}, v: 0}})", 10 + i, 30 + i));
             }
+        }
+    }
+    if spec.fk == "connected" {
+        // the poisoned row keeps one relationship that the DELETE clause does not name
+        let kk = 10 + p.min(spec.k - 1);
+        if (spec.form / 3) % 2 == 0 {
+            q.push(format!("MATCH (a:P {{k: 50}}), (b:R {{k: {kk}}}) CREATE (a)-[:U]->(b)"));
+        } else {
+            q.push(format!("MATCH (a:P {{k: 51}}), (b:R {{k: {kk}}}) CREATE (b)-[:U]->(a)"));
         }
     }
     for (j, e) in extras.iter().enumerate() {
@@ -160,7 +182,7 @@ fn statement(spec: &Spec, p: usize) -> (String, Vec<i64>) {
     let klist = order.iter().map(|i| format!("{}", 10 + i)).collect::<Vec<_>>().join(", ");
     let wh = if spec.site == "where" { format!(" WHERE {fe} > 0") } else { String::new() };
     let wh_and = if spec.site == "where" { format!(" AND {fe} > 0") } else { String::new() };
-    let uses_c = spec.fk == "deleted_node" || (spec.wk == "DELETE" && spec.form % 3 == 2);
+    let uses_c = spec.fk == "deleted_node" || (spec.wk == "DELETE" && spec.form % 3 == 2) || (spec.fk == "connected" && spec.form % 3 != 1);
     let pat = if uses_c { "(n:R)-[r:T]->(c:C)" } else { "(n:R)" };
     let carry = if uses_c { "n, r, c" } else { "n" };
     let source = match spec.src.as_str() {
@@ -261,6 +283,15 @@ fn statement(spec: &Spec, p: usize) -> (String, Vec<i64>) {
             1 => "REMOVE n:A".into(),
             _ => "SET n:Z:B".into(),
         },
+        // refused because the node keeps a relationship: the clause names none (`DELETE n`), or the
+        // row's :T relationship (and its target) but not the :U one
+        ("DELETE", "connected") => match (spec.form % 3, spec.form % 12 >= 6) {
+            (0, false) => "DELETE n, r".into(),
+            (0, true) => "DELETE n, r, c".into(),
+            (1, _) => "DELETE n".into(),
+            (_, false) => "DELETE r, n".into(),
+            (_, true) => "DELETE c, r, n".into(),
+        },
         ("DELETE", _) => match spec.form % 3 {
             0 => "DETACH DELETE n".into(),
             1 => "DELETE n".into(),
@@ -280,6 +311,10 @@ fn statement(spec: &Spec, p: usize) -> (String, Vec<i64>) {
         String::new()
     };
     (format!("{source} {w}{tail}"), created)
+}
+
+fn uses_r(spec: &Spec) -> bool {
+    spec.fk == "connected" && spec.form % 3 != 1
 }
 
 fn int_prop(n: &crate::kit::dump::GNode, key: &str) -> Option<i64> {
@@ -370,9 +405,11 @@ fn gen_stmt(r: &mut Rng, k: u64) -> Value {
     let wk = WKS[r.usize_below(6)];
     let fk = match wk {
         "CREATE" | "MERGE" | "SET" | "LABEL" => ["div0", "type", "dup", "deleted_node", "div0", "type", "dup"][r.usize_below(7)],
+        "DELETE" => ["div0", "type", "connected", "connected"][r.usize_below(4)],
         _ => ["div0", "type"][r.usize_below(2)],
     };
     let (src, site) = match fk {
+        "connected" => (["match", "match_asc", "match_desc", "unwind_match"][r.usize_below(4)], "own"),
         "dup" => {
             let src = if wk == "CREATE" || wk == "MERGE" { ["unwind", "match", "match_asc"][r.usize_below(3)] } else { ["match", "match_asc", "match_desc", "unwind_match"][r.usize_below(4)] };
             (src, "own")
@@ -404,7 +441,7 @@ impl Scenario for C05 {
         16
     }
     fn rule(&self) -> &'static str {
-        "case = (graph variant, one multi-row write statement): k<=5 row nodes plus bystanders, knobs {property index, unique constraint, extra relationships, compaction, freed ids}; statement = row source {UNWIND, MATCH, MATCH..ORDER BY asc/desc, UNWIND+MATCH} x write kind {CREATE, MERGE, SET, REMOVE, LABEL, DELETE} x failure kind {div0, type, dup, deleted_node} x failure site {in the write's own expression, WHERE before it, RETURN after it}; the poisoned row position is enumerated 0..k-1 (one sub-execution each). Non-trivial = at least one sub-execution failed at run time (the planted failure fired). Distinct = hash of (k, knobs, statement shape, extras)."
+        "case = (graph variant, one multi-row write statement): k<=5 row nodes plus bystanders, knobs {property index, unique constraint, extra relationships, compaction, freed ids}; statement = row source {UNWIND, MATCH, MATCH..ORDER BY asc/desc, UNWIND+MATCH} x write kind {CREATE, MERGE, SET, REMOVE, LABEL, DELETE} x failure kind {div0, type, dup (label :A under 1-3 unique constraints), deleted_node, connected (plain DELETE of a node that keeps a relationship the clause does not name)} x failure site {in the write's own expression, WHERE before it, RETURN after it}; the poisoned row position is enumerated 0..k-1 (one sub-execution each). Non-trivial = at least one sub-execution failed at run time (the planted failure fired). Distinct = hash of (k, knobs, statement shape, extras)."
     }
     fn real_components(&self) -> Vec<&'static str> {
         vec!["samyama::query::QueryEngine (parser, planner, MutQueryExecutor::execute_plan_mut, write operators)", "GraphStore mutators, label/type indexes, ColumnStore", "IndexManager property and constraint indexes"]
@@ -421,7 +458,17 @@ impl Scenario for C05 {
         ]
     }
     fn required_probes(&self, _tier: Tier) -> Vec<&'static str> {
-        vec!["stmt_failed_at_runtime", "stmt_failed_unchanged", "index_scan_chosen", "constraint_probe_refused", "poison_at_last_row", "poison_at_first_row"]
+        vec![
+            "stmt_failed_at_runtime",
+            "stmt_failed_unchanged",
+            "index_scan_chosen",
+            "constraint_probe_refused",
+            "poison_at_last_row",
+            "poison_at_first_row",
+            "set_label_refused_under_several_constraints",
+            "delete_refused_naming_some_relationships",
+            "delete_refused_naming_no_relationship",
+        ]
     }
     fn generate(&self, s: &mut Streams, _run_index: u64, _tier: Tier) -> Case {
         let mut case = Case::new("C05");
@@ -429,6 +476,7 @@ impl Scenario for C05 {
         case.knobs.insert("index".into(), json!(s.knobs.chance(1, 2)));
         case.knobs.insert("constraint".into(), json!(s.knobs.chance(1, 2)));
         case.knobs.insert("with_c".into(), json!(s.knobs.chance(1, 3)));
+        case.knobs.insert("constraint2".into(), json!([0u64, 0, 1, 2, 3, 3][s.knobs.usize_below(6)]));
         let n_extra = s.knobs.short_len(0, 5);
         for _ in 0..n_extra {
             case.events.push(json!({"op":"extra","kind":s.workload.below(5),"r":s.workload.below(8)}));
@@ -521,6 +569,12 @@ impl Scenario for C05 {
                 o.probe("stmt_failed_at_runtime");
                 o.fault(&spec.fk);
                 any_runtime_failure = true;
+                if spec.wk == "LABEL" && spec.fk == "dup" && spec.c2 != 0 {
+                    o.probe("set_label_refused_under_several_constraints");
+                }
+                if spec.fk == "connected" {
+                    o.probe(if uses_r(&spec) { "delete_refused_naming_some_relationships" } else { "delete_refused_naming_no_relationship" });
+                }
             }
             // ---- 1. the graph
             let post = dump(&g);
@@ -596,6 +650,21 @@ impl Scenario for C05 {
             }
             for (j, uv) in uvals.iter().enumerate() {
                 probes.push(format!("CREATE (:A {{k: {}, u: {uv}}})", 9000 + j));
+            }
+            // every further constrained key of :A: each value a row or bystander carries (held
+            // exactly when its carrier is an :A node) and one nobody carries
+            if spec.constraint {
+                for (bit, key, base) in [(1u64, "k", 10i64), (2, "w", 200)] {
+                    if spec.c2 & bit == bit {
+                        o.probe("multi_constraint_label");
+                        for i in 0..spec.k as i64 {
+                            probes.push(format!("CREATE (:A {{{key}: {}}})", base + i));
+                        }
+                        probes.push(format!("CREATE (:A {{{key}: 50}})"));
+                        probes.push(format!("CREATE (:A {{{key}: 150}})"));
+                        probes.push(format!("CREATE (:A {{{key}: 9500}})"));
+                    }
+                }
             }
             probes.push("CREATE (:B {k: 9100}), (:B {k: 9101}), (:C {k: 9102}), (:A {k: 9103})".into());
             probes.push("MATCH (n:R) SET n:A".into());
